@@ -136,6 +136,15 @@ class FortLineLength():
             if len(line) > self._line_length:
                 line_type = self._get_line_type(line)
 
+                if line_type != "comment":
+                    if line.rstrip().endswith("&"):
+                        # White space after the continuation marker of
+                        # the line must not end up on a line of its own.
+                        line = line.rstrip()
+                        if len(line) <= self._line_length:
+                            fortran_out += line + "\n"
+                            continue
+
                 c_start = self._cont_start[line_type]
                 c_end = self._cont_end[line_type]
                 key_list = self._key_lists[line_type]
